@@ -9,6 +9,7 @@ func checkC13(p *Prog, r *Report) {
 	if csp := p.SSAPkg(Rel(compkeyPkg)); csp != nil {
 		kp13 := func(rule, rest string) string { return rule + ":C13:" + rest }
 		checkCompkeyEncoder(p, r, kp13, csp)
+		checkStringDecoder(p, r, kp13, csp)
 		if dec := csp.Func("Decode"); dec != nil {
 			checkDecoderShape(p, r, kp13, dec)
 		}
